@@ -350,7 +350,14 @@ func (d *Decoder) scan(data []byte, atEOF bool) (advance int, token []byte, err 
 	}
 
 	// Look for new blocks
-	switch l := startsBlockQuote(data); {
+	l := startsBlockQuote(data)
+	if l > 0 && !atEOF && (l == len(data) || !utf8.FullRune(data[l:])) {
+		// The quote start token runs up to the end of the buffered data (or up to
+		// a partial rune), so we do not know where it ends yet: get more data
+		// instead of letting its length depend on how the input was read.
+		return 0, nil, nil
+	}
+	switch {
 	case l > 0 && !d.quoteStarted:
 		// If we haven't yet consumed our block quote start token, do so.
 		d.mask |= BlockQuote | BlockQuoteStart
